@@ -239,7 +239,7 @@ def run_correspondence(ctx, ncases, tag, cfg_filter=None):
         if r is None:
             continue
         got = parse_result(r)
-        same = got == exp
+        same = H.same_numbers(got, exp)
         ctx.oblige(same, "correspondence", "model genQ/Mean.rom_analyze_aggregates = real analyze_aggregates (Fractions, stand-in sqrt/exp/distributions)",
                    f"model={got} impl={exp}", case)
         ctx.sample({"cfg": case["cfg"], "equal": same, "impl_pvalue": str(exp[8][1])}, limit=3)
